@@ -80,15 +80,29 @@ fn random_map(t: &mut Tape, base: &NameMap) -> (NameMap, bool) {
 }
 
 fn s_rename(t: &mut Tape, ctx: &mut Ctx) -> Result<(), Failure> {
-    let g = gen::generate(t, GenCfg::small());
+    // every third program has template parameters (the fifth naming role)
+    let with_params = t.index(3) == 0;
+    let g = gen::generate(t, GenCfg { params: with_params, ..GenCfg::small() });
     let base_text = render::render(&g.prog, &Style::canonical());
     require_well_typed(&g, &base_text)?;
     let base_names = rename::names(&g.prog);
     let (maps, _) = assignments(t, &g, 32, 2);
     for variant in 0..3 {
+        let mut par_rename: HashMap<String, String> = HashMap::new();
         let (prog2, wit_rename, what, interesting): (_, HashMap<String, String>, &str, bool) = match variant {
             0 | 1 => {
                 let (nm, interesting) = random_map(t, &base_names);
+                // which naming roles got a name built from a reserved word (prefix) or an awkward name
+                let res = reserved();
+                for (role, m) in [("variable", &nm.vars), ("function", &nm.fns), ("alias", &nm.aliases), ("witness", &nm.witnesses), ("parameter", &nm.params)] {
+                    if m.values().any(|n| res.iter().any(|r| r.len() >= 2 && n.len() > r.len() && n.starts_with(*r))) {
+                        ctx.label(&format!("reserved-prefix-name-as:{role}"));
+                    }
+                    if m.values().any(|n| n.chars().any(|c| c.is_ascii_uppercase()) && res.iter().any(|r| r.eq_ignore_ascii_case(n) && *r != n.as_str())) {
+                        ctx.label(&format!("case-variant-of-reserved-word-as:{role}"));
+                    }
+                }
+                par_rename = nm.params.clone();
                 (rename::rename(&g.prog, &nm), nm.witnesses.clone(), "alpha-rename", interesting)
             }
             _ => match t.index(2) {
@@ -110,7 +124,8 @@ fn s_rename(t: &mut Tape, ctx: &mut Ctx) -> Result<(), Failure> {
         ctx.label(&format!("transform:{what}"));
         // the transformed program, its witnesses renamed alike
         let w2: Vec<(String, Val, crate::model::Ty)> = g.witnesses.iter().map(|(n, v, ty)| (wit_rename.get(n).cloned().unwrap_or_else(|| n.clone()), v.clone(), ty.clone())).collect();
-        let g2 = Generated { prog: prog2, witnesses: w2, params: g.params.clone(), labels: Default::default(), intended_verdict: g.intended_verdict.clone(), n_holes: g.n_holes, perturbed: g.perturbed };
+        let p2: Vec<(String, Val, crate::model::Ty)> = g.params.iter().map(|(n, v, ty)| (par_rename.get(n).cloned().unwrap_or_else(|| n.clone()), v.clone(), ty.clone())).collect();
+        let g2 = Generated { prog: prog2, witnesses: w2, params: p2, labels: Default::default(), intended_verdict: g.intended_verdict.clone(), n_holes: g.n_holes, perturbed: g.perturbed };
         let maps2: Vec<HashMap<String, Val>> = maps.iter().map(|m| m.iter().map(|(n, v)| (wit_rename.get(n).cloned().unwrap_or_else(|| n.clone()), v.clone())).collect()).collect();
         // acceptance: a well-typed program is accepted under every identifier map
         match crate::pipe::new_template(&text2) {
